@@ -414,6 +414,17 @@ func (i *interpreter) makeSlice(fr *frame, instr *ssa.MakeSlice) value {
 		if !i.decide(i.st.SLe(i.st.BV(64, uint64(n)), csv.T), "makeslice len<=cap") {
 			panic(runtimeErr("makeslice: cap out of range"))
 		}
+		// the runtime refuses cap * element size above its address-space limit (2^48 bytes on
+		// 64-bit Linux) with a panic, whatever memory the machine has
+		es := int64(8)
+		if i.sizes != nil {
+			if z := i.sizes.Sizeof(tElt); z > 0 {
+				es = z
+			}
+		}
+		if i.decide(i.st.SLt(i.st.BV(64, uint64((int64(1)<<48)/es)), csv.T), "makeslice cap beyond the runtime's limit") {
+			panic(runtimeErr("makeslice: cap out of range"))
+		}
 		if i.decide(i.st.SLt(i.st.BV(64, uint64(i.cfg.MaxAlloc)), csv.T), "makeslice cap huge") {
 			// cap beyond any memory the process can have: runtime panics or OOMs
 			i.hugeAllocs = append(i.hugeAllocs, fr.site(instr.Pos()))
